@@ -100,7 +100,10 @@ def _is_class_hierarchy_diff(a: Any, b: Any, cyclic: bool) -> bool:
         return False
     if cyclic:
         return True
-    return a[:3] == b[:3] and a[3] != b[3]
+    if a[3] == b[3] or a[0] != b[0] or a[2] != b[2]:
+        return False
+    # (whether a class is an exception class follows from its resolved bases: it may differ together with them)
+    return a[1] == b[1] or {a[1], b[1]} == {'DocumentableKind.CLASS', 'DocumentableKind.EXCEPTION'}
 
 
 def project_case(proj: Dict[str, Any]) -> Tuple[Dict[str, str], bool, bool, bool, bool]:
